@@ -88,7 +88,8 @@ pub fn cmd_text(c: &Cmd) -> String {
         "def" => format!("{}() {}", name_text(&c.n, &c.x), compound_text(&c.b, c.i == 1, &c.r)),
         "unsetf" => format!("{}unset -f{}", if c.i == 1 { "command " } else { "" }, words(&c.a)),
         "mkro" => format!("typeset -fr{}", words(&c.a)),
-        "list" => format!("{} | lsf", match c.x.as_str() { "r" => "typeset -frp", "nr" => "typeset -fp +r", _ => "typeset -fp" }),
+        "list" => format!("{} | lsf", match c.x.as_str() { "r" => "typeset -frp", "nr" => "typeset -fp +r", "np" => "typeset -f", _ => "typeset -fp" }),
+        "unsetv" => format!("unset {}", c.n),
         "for" => format!("for i in{}; do {}; done", (1..=c.i).map(|j| format!(" {j}")).collect::<String>(), body_text(&c.b)),
         "brk" => "break".to_string(),
         "sub" => format!("( {} )", body_text(&c.b)),
@@ -120,7 +121,7 @@ fn collect_defs(b: &[Cmd], map: &mut BTreeMap<String, String>) {
 // ---------------------------------------------------------------------------
 // generator
 // ---------------------------------------------------------------------------
-const NAMES: [&str; 3] = ["f", "g", "h"];
+const NAMES: [&str; 4] = ["f", "g", "h", "v"];
 
 #[derive(Clone, Copy)]
 struct Ctx {
@@ -162,7 +163,7 @@ fn gen_body(rng: &mut StdRng, ctx: Ctx, max: usize) -> Vec<Cmd> {
 }
 
 fn gen_def(rng: &mut StdRng, ctx: Ctx) -> Cmd {
-    let idx = rng.gen_range(0..3);
+    let idx = rng.gen_range(0..NAMES.len());
     gen_def_of(rng, ctx, idx)
 }
 
@@ -208,11 +209,11 @@ fn gen_cmd(rng: &mut StdRng, ctx: Ctx) -> Cmd {
             40..=59 => {
                 // a call: from a function body only to a later name
                 let lo = ctx.func.map(|i| i + 1).unwrap_or(0);
-                if lo >= 3 {
+                if lo >= NAMES.len() {
                     continue;
                 }
                 let mut c = cmd("call");
-                c.n = NAMES[rng.gen_range(lo..3)].to_string();
+                c.n = NAMES[rng.gen_range(lo..NAMES.len())].to_string();
                 c.a = gen_args(rng);
                 if rng.gen_range(0..4) == 0 {
                     c.x = pick(rng, &["T", "S"]).into();
@@ -241,7 +242,7 @@ fn gen_cmd(rng: &mut StdRng, ctx: Ctx) -> Cmd {
             }
             84..=87 => {
                 let mut c = cmd("list");
-                c.x = pick(rng, &["", "", "r", "nr"]).into();
+                c.x = pick(rng, &["", "", "r", "nr", "np"]).into();
                 return c;
             }
             88..=91 if !deep => {
@@ -251,6 +252,11 @@ fn gen_cmd(rng: &mut StdRng, ctx: Ctx) -> Cmd {
                 return c;
             }
             92..=93 if ctx.in_loop => return cmd("brk"),
+            92..=93 => {
+                let mut c = cmd("unsetv");
+                c.n = "v".into();
+                return c;
+            }
             94..=99 if !deep => {
                 let mut c = cmd(pick(rng, &["sub", "sub", "pipe", "cs"]));
                 c.b = gen_body(rng, Ctx { in_loop: false, no_ret: true, depth: ctx.depth + 1, ..ctx }, 3);
@@ -272,6 +278,9 @@ pub fn gen_scen(rng: &mut StdRng) -> Scen {
         if rng.gen_range(0..10) < 8 {
             main.push(gen_def_of(rng, ctx, (first + j) % 3));
         }
+    }
+    if rng.gen_range(0..4) == 0 {
+        main.push(gen_def_of(rng, ctx, 3));
     }
     let n = rng.gen_range(2..7);
     for _ in 0..n {
